@@ -83,11 +83,10 @@ def gen(rng, tier, index):
             ops = []
             for j in range(rng.choice([1, 2, 3])):
                 r = rng.random()
-                if t == 0 and j == 0:
+                if (t == 0 and j == 0) or r < 0.25:
                     op = {"op": "deliver", "v": vid}
-                    vid += 1
-                elif r < 0.25:
-                    op = {"op": "deliver", "v": vid}
+                    if rng.random() < 0.3:
+                        op["falsy"] = rng.choice(["nil", "false", "zero", "empty"])   # delivered values that are falsy
                     vid += 1
                 elif r < 0.5:
                     op = {"op": "deref"}
@@ -117,7 +116,7 @@ def gen(rng, tier, index):
         tasks.append(ops)
     body = {"sleep": rng.choice([0, 0.01, 0.02, 0.05]) if faults else 0,
             "exc": rng.choice(EXC_PALETTE) if faults and rng.random() < 0.5 else None,
-            "points": rng.choice([1, 2])}
+            "points": rng.choice([1, 2]), "ret": rng.choice(["int", "int", "int", "nil", "false"])}
     return {"kind": "future", "tasks": tasks, "body": body, "faults": faults,
             "workers": rng.choice([1, 2, 3]), "blocker": faults and rng.random() < 0.3}
 
@@ -215,6 +214,24 @@ def _plain(r):
     if isinstance(v, (int, str, bool)) or v is None:
         return (tag, v)
     return (tag, repr(v))
+
+
+def _pval(op):
+    """The object a promise `deliver` op delivers (some are falsy on purpose)."""
+    f = op.get("falsy")
+    if f == "nil":
+        return None
+    if f == "false":
+        return False
+    if f == "zero":
+        return 0
+    if f == "empty":
+        return ""
+    return 500 + op["v"]
+
+
+def _pplain(op):
+    return _plain(("ok", _pval(op)))[1]
 
 
 def _hist(rec):
@@ -390,7 +407,7 @@ def _run_promise(workload, k):
     def exec_op(op, ti, oi):
         kind = op["op"]
         if kind == "deliver":
-            return _fns["deliver"](p, 500 + op["v"])
+            return _fns["deliver"](p, _pval(op))
         if kind == "deref":
             return _fns["deref"](p)
         if kind == "tderef":
@@ -414,24 +431,26 @@ def _run_promise(workload, k):
         if o.result[0] == "exc":
             return R.verdict("violation", f"{ID}/promise-op-raised:{o.kind}:{o.result[1]}", det, faults=rec.faults)
 
+    UNSET = ("unset",)
+
     def step(state, o):
         kind, res = o.kind, o.result
         if kind == "deliver":
             if res[0] != "ok":
                 return []
-            return [(500 + o.args["v"] if state is None else state, None)]
+            return [(("v", _pplain(o.args)) if state is UNSET else state, None)]
         if kind == "deref":
-            return [(state, None)] if state is not None and res == ("ok", state) else []
+            return [(state, None)] if state is not UNSET and res == ("ok", state[1]) else []
         if kind == "tderef":
-            if state is None:
+            if state is UNSET:
                 return [(state, None)] if res == ("ok", "TIMEOUT") else []
-            return [(state, None)] if res == ("ok", state) else []
+            return [(state, None)] if res == ("ok", state[1]) else []
         if kind == "realized?":
-            return [(state, None)] if res == ("ok", state is not None) else []
+            return [(state, None)] if res == ("ok", state is not UNSET) else []
         return []
 
     try:
-        ok = lin.linearize([o for o, _ in rec.ops], None, step)
+        ok = lin.linearize([o for o, _ in rec.ops], UNSET, step)
     except lin.SearchBudget:
         return R.verdict("inconclusive", f"{ID}/lin-budget", None, faults=rec.faults)
     if ok is None:
@@ -462,7 +481,7 @@ def _run_future(workload, k):
             rec.body.append(("throw", k.ev("bthrow"), k.now, k.cur.name, 1))
             raise _mk_exc(b["exc"])
         rec.body.append(("end", k.ev("bend"), k.now, k.cur.name, 1))
-        return 4242
+        return {"int": 4242, "nil": None, "false": False}[b.get("ret", "int")]
 
     def exec_op(op, ti, oi):
         fut = st["fut"]
@@ -515,7 +534,7 @@ def _run_future(workload, k):
     if mt.exc is not None and mt.exc != "abort":
         return R.verdict("harness", f"{ID}/harness", "main task raised " + repr(mt.exc), faults=rec.faults)
     det = {"history": _hist(rec), "body": b, "body_events": rec.body, "set_at": st["set_at"]}
-    want = ("exc", _exc_class_name(b["exc"])) if b["exc"] else ("ok", 4242)
+    want = ("exc", _exc_class_name(b["exc"])) if b["exc"] else ("ok", {"int": 4242, "nil": None, "false": False}[b.get("ret", "int")])
     got_final = []
     for o, _ in rec.ops:
         if o.kind == "deref":
